@@ -72,6 +72,51 @@ def check_writers(ctx, facts):
             ctx.violate("C15.1", hn, "count-key", b.relfile, b.line, "the count entry updated is not keyed by the function's topic argument")
 
 
+def net_count_paths(b, wsite, ok_edges, limit=4000):
+    """Acyclic paths entry -> return of an append function: on a path through an Ok edge of the writer call the
+    increments minus the decrements must be exactly one amount, on every other path nothing.  Returns None if
+    that holds, else a description of the first offending path."""
+    from .core.symexpr import expr as _e, strip_refs as _sr, show as _sh
+    inc = {c.bb: c for c in b.calls(re.compile(r"Walrus::increment_topic_entry_count$"))}
+    dec = {c.bb: c for c in b.calls(re.compile(r"Walrus::decrement_topic_entry_count$"))}
+    oks = set(ok_edges)
+    rets = {bb for bb in b.live_blocks if b.term(bb)["k"] == "return"}
+    count = [0]
+    bad = [None]
+
+    def amt(c):
+        return _sh(_sr(_e(b, c.node["args"][2])), 6)
+
+    def dfs(bb, seen, wrote, net):
+        if bad[0] is not None:
+            return
+        count[0] += 1
+        if count[0] > limit:
+            bad[0] = "the function has too many paths to enumerate (fail closed)"
+            return
+        net = list(net)
+        if bb in inc:
+            net.append(("+", amt(inc[bb])))
+        if bb in dec:
+            a = amt(dec[bb])
+            if ("+", a) in net:
+                net.remove(("+", a))
+            else:
+                net.append(("-", a))
+        if bb in rets:
+            want = 1 if wrote else 0
+            if len(net) != want or any(sg != "+" for sg, _ in net):
+                bad[0] = "a path that %s returns with a net count change of %s (line %s)" % (
+                    "passes the Ok edge of the write" if wrote else "does not pass the Ok edge of the write", net or "nothing", b.term(bb).get("line"))
+            return
+        for s_ in b.succ[bb]:
+            if s_ in seen or s_ not in b.live_blocks:
+                continue
+            dfs(s_, seen | {s_}, wrote or (bb, s_) in oks, net)
+    dfs(0, {0}, False, [])
+    return bad[0]
+
+
 def check_increments(ctx, facts):
     want = {"walrus_write::append_for_topic": ("Writer::write", "const1"), "walrus_write::batch_append_for_topic": ("Writer::batch_write", "len")}
     seen = {}
@@ -94,7 +139,13 @@ def check_increments(ctx, facts):
             if ok_e and any(b.edge_guards(e, s.bb) for e in ok_e):
                 ctx.ok("C15.2", F, "increment is dominated by the Ok edge of %s" % wname, b.relfile, s.line)
             else:
-                ctx.violate("C15.2", F, "increment-not-after-successful-write", b.relfile, s.line, "the count is incremented on a path where %s has not returned Ok" % wname)
+                # count-first designs: judged by the net count of every path (below)
+                bad = net_count_paths(b, ws[0], ok_e)
+                if bad is None:
+                    ctx.ok("C15.2", F, "increment precedes %s, and every path on which the write did not succeed takes the same amount out again" % wname, b.relfile, s.line)
+                else:
+                    ctx.violate("C15.2", F, "increment-not-after-successful-write", b.relfile, s.line,
+                                "the count is incremented on a path where %s has not returned Ok, and %s" % (wname, bad))
             # topic argument = same topic as given to the writer lookup
             tsrc, _, _ = origins(b, s.node["args"][1])
             if origin_args(tsrc) == {"col_name"} or len(origin_args(tsrc)) == 1 and not origin_calls(tsrc):
@@ -194,6 +245,8 @@ def check_decrements(ctx, facts):
         if not sites:
             continue
         ctx.saw_body(b)
+        if F in ("walrus_write::append_for_topic", "walrus_write::batch_append_for_topic"):
+            continue   # a roll-back of a count-first increment: C15.2's net-count rule judges every path of these two
         if F not in allowed:
             for s in sites:
                 ctx.violate("C15.3", F, "unexpected-decrement-site", b.relfile, s.line, "%s decrements a topic count; only consuming reads may" % F)
